@@ -255,6 +255,13 @@ fn dense<F: Scalar>(p: &Params) {
     // offs=k: every coordinate is shifted by 2^k (records far from the origin but close to each other; still exact)
     let offs = p.get("offs", 0);
     if offs > 0 {
+        // harness-side order branches on the first coordinate: one path (and one witness) per ordering of the rows,
+        // so that witnesses with different rows are evaluated, not only the all-equal default input
+        for i in 0..n {
+            for j in i + 1..n {
+                let _ = x[(i, 0)] < x[(j, 0)] || x[(j, 0)] < x[(i, 0)];
+            }
+        }
         x.mapv_inplace(|v| v + F::lit((offs as f64).exp2()));
     }
     let m = method_from::<F>(p);
